@@ -194,16 +194,7 @@ def run(ctx):
 
         # R6 / R7 for the concatenation formats
         if short in CONCAT_FORMATS:
-            lo = prog.format_op(short, "load_one")
-            # the frame parser: load_one itself, or the one function load_one hands its arguments to unchanged
-            # (`def load_one(lit, ...): return _load_frame(lit, ...)`), which load_many may then call directly
-            body_ = [st for st in lo.body if not (isinstance(st, ast.Expr) and isinstance(st.value, ast.Constant))]
-            if len(body_) == 1 and isinstance(body_[0], ast.Return) and isinstance(body_[0].value, ast.Call):
-                cs_ = next((c for c in lo.calls if c.node is body_[0].value), None)
-                inner = cs_.callees[0] if cs_ is not None and len(cs_.callees) == 1 and cs_.callees[0].module is lo.module else None
-                call_ = body_[0].value
-                if inner is not None and not call_.keywords and [getattr(a, "id", None) for a in call_.args] == list(lo.posparams[: len(call_.args)]) and len(call_.args) == len(inner.posparams):
-                    lo = inner
+            lo = frame_parser(prog.format_op(short, "load_one"))
             ys = [x for s in floop.body for x in ast.walk(s) if isinstance(x, ast.Yield)]
             okk = len(ys) == 1 and isinstance(ys[0].value, ast.Call) and any(cs.node is ys[0].value and lo in cs.callees for cs in g.calls)
             if okk:
@@ -328,6 +319,9 @@ def run(ctx):
     check_lookahead_transparency(ctx, "R11")
     ctx.rule("R13", "inside a frame parser, the end of the input is taken as a normal end only where a new record would start", "a handler that also covers the record readers: a file cut inside an ATOM / BOND block yields a partial frame (or silently one frame fewer) without warning")
     check_boundary_handlers(ctx, "R13")
+    # "each frame carries that frame's data exactly as a single-frame file would load": nothing may be carried from one
+    # frame to the next through module-level objects or memoised results (the clauses C16 decides)
+    ctx.borrow("c16", {"R1": "R14", "R3": "R15"})
     ctx.rule("R12", "a PDB CONECT record that names an atom outside the frame is an error, not a silently dropped bond", "a frame whose bond table refers to a missing atom loads as a complete frame with fewer bonds")
     from .c03 import check_pdb_conect_lookup
 
@@ -492,6 +486,19 @@ LOOKAHEAD_FEEDS = {
 }
 
 
+def frame_parser(lo):
+    """The frame parser of a format: load_one itself, or the one function load_one hands its arguments to unchanged
+    (`def load_one(lit, ...): return _load_frame(lit, ...)`), which load_many may then call directly."""
+    body_ = [st for st in lo.body if not (isinstance(st, ast.Expr) and isinstance(st.value, ast.Constant))]
+    if len(body_) == 1 and isinstance(body_[0], ast.Return) and isinstance(body_[0].value, ast.Call):
+        cs_ = next((c for c in lo.calls if c.node is body_[0].value), None)
+        inner = cs_.callees[0] if cs_ is not None and len(cs_.callees) == 1 and cs_.callees[0].module is lo.module else None
+        call_ = body_[0].value
+        if inner is not None and not call_.keywords and [getattr(a, "id", None) for a in call_.args] == list(lo.posparams[: len(call_.args)]) and len(call_.args) == len(inner.posparams):
+            return inner
+    return lo
+
+
 def lookahead_outcomes(prog):
     """{format: (load_many, [(label, feed, outcome, stream, lineno)])} for every frame-concatenation generator."""
     from ..accessors import AccessorEval, Raised, Rec, Yielded
@@ -505,7 +512,10 @@ def lookahead_outcomes(prog):
             continue
         # frame loops over concatenated one-frame files: the generator yields what the module's load_one returns
         lo1 = prog.funcs.get(f"{m.name}.load_one")
-        if lo1 is None or not any(isinstance(x, ast.Yield) and isinstance(x.value, ast.Call) and any(cs.node is x.value and lo1 in cs.callees for cs in lm.calls) for x in lm.own_nodes()):
+        if lo1 is None:
+            continue
+        parsers = {lo1, frame_parser(lo1)}
+        if not any(isinstance(x, ast.Yield) and isinstance(x.value, ast.Call) and any(cs.node is x.value and parsers & set(cs.callees) for cs in lm.calls) for x in lm.own_nodes()):
             continue
         rows = []
         for label, feed in LOOKAHEAD_FEEDS.items():
@@ -668,4 +678,25 @@ def check_boundary_handlers(ctx, rid):
                     ctx.violate(rid, f"{g.qualname}: the `try` that takes StopIteration for the normal end of the input also covers `{src_of(x)[:60]}`: when the file ends inside that block the frame is returned as it stands (or the sequence ends one frame short) without warning", g, t, construct=f"tolerant try covers {h.name}")
                 else:
                     ctx.ok(rid, f"{g.qualname}: the StopIteration-tolerant try at line {t.lineno} covers record-head reads only", f"{g.module.relpath}:{t.lineno}", sample=False)
+            # `next(lit, default)` is the same tolerance without a `try`: legitimate only as the record-head read of a
+            # loop whose next statement tests the result against that default and leaves the loop
+            pmg = prog.parents(g)
+            for x in g.own_nodes():
+                if not (isinstance(x, ast.Call) and isinstance(x.func, ast.Name) and x.func.id == "next" and len(x.args) == 2 and isinstance(x.args[0], ast.Name) and x.args[0].id in (g.posparams[:1] or ["lit"]) + ["lit"]):
+                    continue
+                nsites += 1
+                st = x
+                while not isinstance(st, ast.stmt):
+                    st = pmg[id(st)]
+                par = pmg.get(id(st))
+                ok_ = False
+                if isinstance(st, ast.Assign) and st.value is x and len(st.targets) == 1 and isinstance(st.targets[0], ast.Name) and isinstance(par, (ast.While, ast.For)) and par.body and par.body[0] is st and len(par.body) > 1:
+                    nxt = par.body[1]
+                    tname = st.targets[0].id
+                    if isinstance(nxt, ast.If) and any(isinstance(y, ast.Name) and y.id == tname for y in ast.walk(nxt.test)) and nxt.body and isinstance(nxt.body[-1], (ast.Break, ast.Return)):
+                        ok_ = True
+                if ok_:
+                    ctx.ok(rid, f"{g.qualname}: `{src_of(x)}` at line {x.lineno} is a record-head read whose default ends the loop", f"{g.module.relpath}:{x.lineno}", sample=False)
+                else:
+                    ctx.violate(rid, f"{g.qualname}: `{src_of(x)}` replaces a missing line by a default inside a record: a file that ends here yields the frame as far as it got, without warning or error", g, x, construct=f"next with default inside a record: {src_of(x)}")
     ctx.floor(rid, nsites, 1, "StopIteration-tolerant try statements in frame parsers")
